@@ -41,6 +41,49 @@ WITH_UL = ["mul_2exp", "div_2exp", "mul_eq_2exp", "div_eq_2exp"]
 CUN = ["cmod", "csmod", "cinv", "cinv_eq", "csqr", "csqr_eq"]
 CBIN = ["cadd", "csub", "cmul", "cmul_eq", "cdiv"]
 
+# ops whose arguments, model function and predicate are those of another op (the C function differs)
+ALIAS = {"d": "set_d", "2dl": "set_2dl", "cd": "cset_d", "cx": "cset_d", "cset_x": "cset_d", "cpow_eq_si": "cpow_si",
+         "cmul_eq_e": "cmul_e", "cdiv_eq_e": "cdiv_e", "cmul_eq_d": "cmul_d", "cdiv_eq_d": "cdiv_d",
+         "cadd_eq": "cadd", "csub_eq": "csub", "cdiv_eq": "cdiv", "cmul_eq_x": "cmul_x",
+         "cneg_eq": "cneg", "ccon_eq": "ccon", "crot_eq": "crot", "cflip_eq": "cflip",
+         "add_eq_d": "add_d", "sub_eq_d": "sub_d", "c2dl": "cset_2dl",
+         "set": "get_2dl", "ce": "cget_e", "cset_e": "cget_e", "cset": "cget_e"}
+K.update({"add_d": 2, "sub_d": 2, "cmul_x": 6})
+
+# protocol op -> public function of include/mps/mt.h it calls in harness/c12_dpe.c
+COVER = {"set_d": "rdpe_set_d", "set_2dl": "rdpe_set_2dl", "get_d": "rdpe_get_d", "d": "rdpe_d", "2dl": "rdpe_2dl",
+         "get_2dl": "rdpe_get_2dl", "set": "rdpe_set", "clear": "rdpe_clear", "swap": "rdpe_swap",
+         "mul_d": "rdpe_mul_d", "div_d": "rdpe_div_d", "mul_eq_d": "rdpe_mul_eq_d", "div_eq_d": "rdpe_div_eq_d",
+         "add_d": "rdpe_add_d", "sub_d": "rdpe_sub_d", "add_eq_d": "rdpe_add_eq_d", "sub_eq_d": "rdpe_sub_eq_d",
+         "mul_2exp": "rdpe_mul_2exp", "div_2exp": "rdpe_div_2exp", "mul_eq_2exp": "rdpe_mul_eq_2exp", "div_eq_2exp": "rdpe_div_eq_2exp",
+         "pow_si": "rdpe_pow_si", "pow_eq_si": "rdpe_pow_eq_si", "sgn": "rdpe_sgn", "eq_zero": "rdpe_eq_zero",
+         "cmod": "cdpe_mod", "csmod": "cdpe_smod", "cinv": "cdpe_inv", "cinv_eq": "cdpe_inv_eq", "csqr": "cdpe_sqr", "csqr_eq": "cdpe_sqr_eq",
+         "cadd": "cdpe_add", "csub": "cdpe_sub", "cmul": "cdpe_mul", "cdiv": "cdpe_div", "cmul_eq": "cdpe_mul_eq",
+         "cadd_eq": "cdpe_add_eq", "csub_eq": "cdpe_sub_eq", "cdiv_eq": "cdpe_div_eq",
+         "cmul_e": "cdpe_mul_e", "cdiv_e": "cdpe_div_e", "cmul_eq_e": "cdpe_mul_eq_e", "cdiv_eq_e": "cdpe_div_eq_e",
+         "cmul_d": "cdpe_mul_d", "cdiv_d": "cdpe_div_d", "cmul_eq_d": "cdpe_mul_eq_d", "cdiv_eq_d": "cdpe_div_eq_d",
+         "cmul_x": "cdpe_mul_x", "cmul_eq_x": "cdpe_mul_eq_x",
+         "cmul_2exp": "cdpe_mul_2exp", "cdiv_2exp": "cdpe_div_2exp", "cmul_eq_2exp": "cdpe_mul_eq_2exp", "cdiv_eq_2exp": "cdpe_div_eq_2exp",
+         "cpow_si": "cdpe_pow_si", "cpow_eq_si": "cdpe_pow_eq_si", "cset_d": "cdpe_set_d", "cget_d": "cdpe_get_d", "cget_x": "cdpe_get_x",
+         "cd": "cdpe_d", "cx": "cdpe_x", "cset_x": "cdpe_set_x", "ce": "cdpe_e", "cset_e": "cdpe_set_e", "cget_e": "cdpe_get_e",
+         "c2dl": "cdpe_2dl", "cset_2dl": "cdpe_set_2dl", "cset": "cdpe_set", "cclear": "cdpe_clear", "cswap": "cdpe_swap",
+         "cneg": "cdpe_neg", "ccon": "cdpe_con", "crot": "cdpe_rot", "cflip": "cdpe_flip",
+         "cneg_eq": "cdpe_neg_eq", "ccon_eq": "cdpe_con_eq", "crot_eq": "cdpe_rot_eq", "cflip_eq": "cdpe_flip_eq",
+         "ceq_zero": "cdpe_eq_zero", "ceq": "cdpe_eq", "cne": "cdpe_ne"}
+for _o in ["neg", "abs", "inv", "sqr", "sqrt", "neg_eq", "abs_eq", "inv_eq", "sqr_eq", "sqrt_eq", "mul", "div", "add", "sub",
+           "mul_eq", "div_eq", "add_eq", "sub_eq", "cmp", "eq", "ne", "lt", "le", "gt", "ge"]:
+    COVER[_o] = "rdpe_" + _o
+# public functions deliberately outside the check
+EXCLUDED = {
+    "libm / decimal exponent (outside the property's operation list and outside the model)":
+        ["rdpe_set_dl", "rdpe_get_dl", "rdpe_log", "rdpe_log10", "rdpe_exp", "rdpe_exp_eq", "rdpe_pow_d", "rdpe_pow_eq_d", "cdpe_set_dl"],
+    "string / stream input-output (decimal, through rdpe_set_dl / rdpe_get_dl)":
+        ["rdpe_set_str", "rdpe_get_str", "rdpe_out_str", "rdpe_out_str_u", "rdpe_inp_str", "rdpe_inp_str_u", "rdpe_inp_str_flex",
+         "cdpe_set_str", "cdpe_get_str", "cdpe_out_str", "cdpe_out_str_u", "cdpe_inp_str", "cdpe_inp_str_u"],
+    "array initialisation (loops over rdpe_clear / cdpe_clear, which are covered)": ["rdpe_vinit", "cdpe_vinit"],
+    "factorial: not an operation of the property; a loop of rdpe_mul_eq_d, which is covered": ["rdpe_fac_ui"],
+}
+
 # ------------------------------------------------------------------ exact arithmetic helpers
 
 def dec(mb):
@@ -183,7 +226,41 @@ def sgnch(mb): return {0: "0", 1: "+", -1: "-"}[sign_of(mb)]
 def evaluate(op, a, out):
     """a: argument tokens, out: output tokens of the implementation.
     Returns None (predicate holds), ("skip", why) or (kind, class)."""
+    op = ALIAS.get(op, op)
     try:
+        if op in ("get_2dl", "cget_e"):          # accessors / copies: bit-identical
+            return None if [t.lower() for t in out] == [t.lower() for t in a] else ("rel", "copy-differs")
+        if op in ("clear", "cclear"):
+            return None if all(int(out[2 * j], 16) == 0 and int(out[2 * j + 1]) == 0 for j in range(len(out) // 2)) else ("rel", "not-zero")
+        if op == "swap":
+            return None if out == a[2:4] + a[0:2] else ("rel", "copy-differs")
+        if op == "cswap":
+            return None if out == a[4:8] else ("rel", "copy-differs")
+        if op in ("cneg", "ccon", "crot", "cflip"):
+            NEGB = 1 << 63
+            fl = lambda t: "%016x" % (int(t, 16) ^ NEGB)
+            want = {"cneg": [fl(a[0]), a[1], fl(a[2]), a[3]], "ccon": [a[0], a[1], fl(a[2]), a[3]],
+                    "crot": [fl(a[2]), a[3], a[0], a[1]], "cflip": [a[2], a[3], a[0], a[1]]}[op]
+            return None if out == want else ("rel", "structural")
+        if op in ("add_d", "sub_d"):
+            x = rval(int(a[0], 16), int(a[1])); d = dec(int(a[2], 16))
+            if x is None or d is None: return ("skip", "non-finite")
+            dv = (d[0], 1, d[1]) if d[0] else (0, 1, 0)
+            return check_real(op, int(out[0], 16), int(out[1]), x_add(x, dv, 1 if op == "add_d" else -1), K[op])
+        if op == "cset_2dl":
+            for j in (0, 1):
+                r = evaluate("set_2dl", a[2 * j:2 * j + 2], out[2 * j:2 * j + 2])
+                if r: return r
+            return None
+        if op == "ceq_zero":
+            want = int(sign_of(int(a[0], 16)) == 0 and sign_of(int(a[2], 16)) == 0)
+            return None if int(out[0]) == want else ("order", "complex-zero-test")
+        if op in ("ceq", "cne"):
+            vs = [rval(int(a[2 * j], 16), int(a[2 * j + 1])) for j in range(4)]
+            if any(v is None for v in vs): return ("skip", "non-finite")
+            same = x_cmp(vs[0], vs[2]) == 0 and x_cmp(vs[1], vs[3]) == 0
+            want = int(same) if op == "ceq" else int(not same)
+            return None if int(out[0]) == want else ("order", "complex-equality")
         if op in ("set_d",):
             v = dec(int(a[0], 16))
             if v is None: return ("skip", "non-finite")
@@ -357,6 +434,13 @@ def evaluate_complex(op, a, out):
         f = x_mul if op == "cmul_d" else x_div
         exact = (f(z[0], dv), f(z[1], dv)); k = K[op]
         if d[0] and not (-900 < x_exp(dv) < 900): return ("skip", "mantissa op leaves the normal double range (see mul_d)")
+    elif op == "cmul_x":
+        ds = [dec(int(a[4], 16)), dec(int(a[5], 16))]
+        if ds[0] is None or ds[1] is None: return ("skip", "non-finite")
+        w = tuple((d[0], 1, d[1]) if d[0] else (0, 1, 0) for d in ds)
+        if any(d[0] and not (-900 < x_exp(v) < 900) for d, v in zip(ds, w)):
+            return ("skip", "mantissa op leaves the normal double range (see mul_d)")
+        exact = cmul(z, w); k = K[op]
     elif op == "cpow_si":
         i = int(a[4])
         if z[0][0] == 0 and z[1][0] == 0 and i <= 0: return ("skip", "0^nonpositive")
@@ -472,7 +556,51 @@ def fr(x): return "%016x %d" % x
 def fc(z): return fr(z[0]) + " " + fr(z[1])
 
 
+def gen_extra(rng):
+    """the remaining public functions: aliases, accessors, structural and _eq forms"""
+    q = rng.random()
+    mod = rng.random() < 0.9
+    cz = lambda: (gen_r(rng, mod), gen_r(rng, mod))
+    if q < 0.20:
+        (a, b), (c, d) = gen_pair(rng, mod), gen_pair(rng, mod)
+        w = (b, d) if rng.random() < 0.85 else (gen_r(rng, mod, allow_zero=False), gen_r(rng, mod))
+        return "cdiv_eq %s %s" % (fc((a, c)), fc(w))
+    if q < 0.32:
+        (a, b), (c, d) = gen_pair(rng, mod), gen_pair(rng, mod)
+        return "%s %s %s" % (rng.choice(["cadd_eq", "csub_eq"]), fc((a, c)), fc((b, d)))
+    if q < 0.42:
+        op = rng.choice(["cmul_eq_e", "cdiv_eq_e"])
+        return "%s %s %s" % (op, fc(cz()), fr(gen_r(rng, mod, allow_zero=(op == "cmul_eq_e"))))
+    if q < 0.50:
+        return "%s %s %016x" % (rng.choice(["cmul_eq_d", "cdiv_eq_d"]), fc(cz()), gen_double(rng))
+    if q < 0.60:
+        return "%s %s %016x %016x" % (rng.choice(["cmul_x", "cmul_eq_x"]), fc((gen_r(rng, True), gen_r(rng, True))), gen_double(rng), gen_double(rng))
+    if q < 0.68:
+        return "%s %s %016x" % (rng.choice(["add_d", "sub_d", "add_eq_d", "sub_eq_d"]), fr(gen_r(rng)), gen_double(rng))
+    if q < 0.76:
+        return "%s %s" % (rng.choice(["cneg", "ccon", "crot", "cflip", "cneg_eq", "ccon_eq", "crot_eq", "cflip_eq"]), fc((gen_r(rng), gen_r(rng))))
+    if q < 0.82:
+        op = rng.choice(["ceq", "cne", "ceq_zero"])
+        z = (gen_r(rng), gen_r(rng))
+        if op == "ceq_zero": return "ceq_zero %s" % fc(z if rng.random() < 0.6 else ((0, 0), (rng.choice([0, 1 << 63]), 0)))
+        w = z if rng.random() < 0.4 else (z[0], gen_r(rng)) if rng.random() < 0.5 else (gen_r(rng), gen_r(rng))
+        return "%s %s %s" % (op, fc(z), fc(w))
+    if q < 0.88:
+        op = rng.choice(["d", "2dl", "cd", "cx", "cset_x", "c2dl", "cset_2dl"])
+        if op == "d": return "d %016x" % gen_double(rng)
+        if op == "2dl": return "2dl %016x %d" % (gen_double(rng), gen_exp(rng))
+        if op in ("cd", "cx", "cset_x"): return "%s %016x %016x" % (op, gen_double(rng), gen_double(rng))
+        return "%s %016x %d %016x %d" % (op, gen_double(rng), gen_exp(rng), gen_double(rng), gen_exp(rng))
+    if q < 0.95:
+        op = rng.choice(["get_2dl", "set", "clear", "swap", "ce", "cset_e", "cget_e", "cset", "cclear", "cswap"])
+        if op in ("get_2dl", "set", "clear"): return "%s %s" % (op, fr(gen_r(rng)))
+        if op in ("swap", "ce", "cset_e", "cget_e", "cset", "cclear"): return "%s %s" % (op, fc((gen_r(rng), gen_r(rng))))
+        return "cswap %s %s" % (fc((gen_r(rng), gen_r(rng))), fc((gen_r(rng), gen_r(rng))))
+    return "cpow_eq_si %s %d" % (fc((gen_r(rng, True), gen_r(rng, True))), rng.randint(-12, 12))
+
+
 def gen_case(rng):
+    if rng.random() < 0.15: return gen_extra(rng)
     r = rng.random()
     if r < 0.30:
         op = rng.choice(BINARY); a, b = gen_pair(rng)
@@ -610,6 +738,10 @@ def targeted_cases():
     for e in [LMAX, LMAX - 1, (1 << 62), LMIN, -(1 << 62)]:
         out.append("csqr %s" % fc(((T, e), (A, e)))); out.append("csqr_eq %s" % fc(((T, e), (A, e))))
         out.append("csqr %s" % fc(((T, e), (A, 3)))); out.append("csqr %s" % fc(((T, 3), (A, e))))
+    for rc in [((H, 2), (0, 0)), ((T, 5), (A | NEG, 3)), ((0, 0), (H, 1)), ((B | NEG, -7), (T, -7))]:
+        for c in [((H, 3), (0, 0)), ((T | NEG, 1), (A, 2)), ((0, 0), (H | NEG, 4))]:
+            out.append("cdiv_eq %s %s" % (fc(rc), fc(c))); out.append("cdiv %s %s" % (fc(rc), fc(c)))
+    out.append("cdiv_eq %s %s" % (fc(((B, 2), (T, 1))), fc(((H, 2), (T, 1)))))      # rc / c within a few ulps of c / c
     for m in [H, T | NEG]:
         out.append("csqr %s" % fc(((m, 2), (0, 0)))); out.append("csqr %s" % fc(((0, 0), (m, 2))))
         out.append("csqr_eq %s" % fc(((m, 2), (0, 0))))
@@ -710,7 +842,13 @@ def summarise(res, st):
             if prefix: st["unevaluated_cases_matching_prefix_model"] = st.get("unevaluated_cases_matching_prefix_model", 0) + 1
             # (where the predicate is not evaluated -- composite complex operation at extreme exponents -- and the
             #  output is bit for bit the one of the pre-fix model, the difference is the known rdpe_mul* defect)
-            if d.get("agree") is False and d["ub"] is None and not prefix:
+            if d.get("agree") is False and d["ub"] is None and not prefix and d.get("model_old") == d["impl"]:
+                # the code is bit for bit the pre-fix model of this function, on an input where the pre-fix defect
+                # does not break the predicate: reported under the defect's own transitional signature
+                rep.append(("prefix:%s" % op, "`%s`: implementation %s equals the pre-fix model of %s (repaired model: %s); the "
+                            "defect is not visible on this input" % (d["line"], d["impl"], op, d["model"]),
+                            {"case": d["line"], "impl": d["impl"], "model": d["model"]}, False))
+            elif d.get("agree") is False and d["ub"] is None and not prefix:
                 # model != implementation, predicate true: the correspondence is broken
                 rep.append(("correspondence:%s" % op, "model and implementation differ on `%s`: impl %s, model %s (predicate holds)"
                             % (d["line"], d["impl"], d["model"]), {"case": d["line"], "impl": d["impl"], "model": d["model"]}, True))
@@ -752,6 +890,7 @@ WITNESSES = [
     ("get_d 3fe0000000000000 4294967296", "C12_saturates_refuted: get_d int cast"),
     ("cmp 3fe0000000000000 9223372036854775807 3fe0000000000000 -9223372036854775808", "C12_cmp_refuted"),
     ("sqrt 3fe0000000000000 9223372036854775807", "C12_saturates_refuted: sqrt(RDPE_MAX)"),
+    ("cdiv_eq 3fe0000000000000 2 0000000000000000 0 3fe0000000000000 3 0000000000000000 0", "C12_cdpe_div_eq_unfixed_refuted: 2/4 = 1"),
 ]
 
 
@@ -822,6 +961,21 @@ def run(ctx):
         if rc != 0:
             ctx.violation("proof:coqchk", "coqchk rejects the compiled library of Properties_C12", coqchk, no_input=True)
 
+    # every public rdpe_* / cdpe_* function of the header: exercised (by which protocol ops, how often) or excluded (why)
+    hdr = open(os.path.join(ctx.snap("san"), "include/mps/mt.h"), errors="replace").read()
+    public = sorted(set(re.findall(r"\b((?:rdpe|cdpe)_[a-z0-9_]+) \(", hdr)))
+    byfn = {}
+    for o, f in COVER.items(): byfn.setdefault(f, []).append(o)
+    excl = {f: why for why, fs in EXCLUDED.items() for f in fs}
+    api = {"public_functions": len(public),
+           "covered": {f: {"ops": sorted(byfn[f]), "cases": sum(st["ops"].get(o, 0) for o in byfn[f])} for f in public if f in byfn},
+           "excluded": {f: excl[f] for f in public if f in excl},
+           "unaccounted": [f for f in public if f not in byfn and f not in excl]}
+    api["covered_count"] = len(api["covered"]); api["excluded_count"] = len(api["excluded"])
+    api["covered_but_never_run"] = [f for f, v in api["covered"].items() if v["cases"] == 0]
+    if api["unaccounted"] or api["covered_but_never_run"]:
+        ctx.notes.append("public DPE functions neither exercised nor excluded: %s; never run: %s" % (api["unaccounted"], api["covered_but_never_run"]))
+    ctx.log("API coverage: %d public functions, %d exercised, %d excluded, unaccounted %s" % (len(public), api["covered_count"], api["excluded_count"], api["unaccounted"]))
     ndist = len(st["distinct"]); st["distinct"] = ndist
     cov = {
         "evaluations": st["evaluations"],
@@ -832,6 +986,7 @@ def run(ctx):
                 "distance 0,1,52..55, sums at LONG_MAX/LONG_MIN); distinct = distinct input lines; every case runs through the "
                 "sanitised implementation, the extracted model and the exact predicate",
         "samples": samples,
+        "api_coverage": api,
         "op_histogram": st["ops"],
         "predicate_true": st["predicate_true"], "predicate_false": st["predicate_false"],
         "failing_classes": st["fail_classes"],
